@@ -72,6 +72,32 @@ static void op_enc(const Bytes &data) {
     o.s("}\n"); o.maybe_flush();
 }
 
+// Large inputs (size arithmetic of the encoders): the event carries sizes, the padding tail and whether the
+// decoders returned the original bytes - not the bytes themselves (hundreds of kilobytes per event).
+static void op_encbig(size_t n) {
+    if (!SH.take()) return;
+    Out h; h.s("{").k("e").q("encbig").c(',').k("i").i(SH.idx - 1).c(',').k("n").i((long long)n);
+    set_cur(SH.idx - 1, h.b + "}");
+    Bytes data(n, '\0'); for (size_t i = 0; i < n; ++i) data[i] = (char)((i * 131 + 7) & 0xFF);
+    Exact<char> ex(data.data(), data.size());
+    Out &o = out();
+    o.s(h.b);
+    try {
+        string hx = ST::hex_encode(ex.p, ex.n), b64 = ST::base64_encode(ex.p, ex.n);
+        ST::char_buffer hb = ST::hex_decode(hx), bb = ST::base64_decode(b64);
+        std::vector<char> cb(n + 1);
+        ST_ssize_t r1 = ST::base64_decode(b64, cb.data(), n); bool same_cb = r1 == (ST_ssize_t)n && memcmp(cb.data(), data.data(), n) == 0;
+        ST_ssize_t r2 = ST::hex_decode(hx, cb.data(), n); bool same_hcb = r2 == (ST_ssize_t)n && memcmp(cb.data(), data.data(), n) == 0;
+        size_t t = b64.size() < 4 ? b64.size() : 4;
+        o.c(',').k("res").q("ok").c(',').k("hexlen").i((long long)hx.size()).c(',').k("b64len").i((long long)b64.size())
+         .c(',').k("tail").s(jbytes(Bytes(b64.c_str() + b64.size() - t, t)))
+         .c(',').k("hex_back").i(hb.size() == n && memcmp(hb.data(), data.data(), n) == 0).c(',').k("b64_back").i(bb.size() == n && memcmp(bb.data(), data.data(), n) == 0)
+         .c(',').k("b64_back_cb").i(same_cb).c(',').k("hex_back_cb").i(same_hcb)
+         .c(',').k("b64_null").i((long long)ST::base64_decode(b64, nullptr, 0)).c(',').k("hex_null").i((long long)ST::hex_decode(hx, nullptr, 0));
+    } catch (const std::exception &e) { o.c(',').k("res").q(demangle(typeid(e).name())); }
+    o.s("}\n"); o.maybe_flush();
+}
+
 static void op_dec(bool hex, const Bytes &text) {
     if (!SH.take()) return;
     Out h; h.s("{").k("e").q("dec").c(',').k("i").i(SH.idx - 1).c(',').k("kind").q(hex ? "hex" : "b64").c(',').k("text").s(jbytes(text));
@@ -125,6 +151,8 @@ int main(int argc, char **argv) {
         for (int pos = 0; pos < 3; ++pos) for (int v = 0; v < 256; ++v) for (int bg : {0x00, 0xFF, 0xAA, 0x55}) { Bytes b(3, (char)bg); b[pos] = (char)v; op_enc(b); }
         // every length across the small-string limit of the results
         for (int n = 0; n <= 50; ++n) { Bytes b; for (int i = 0; i < n; ++i) b.push_back((char)(i * 37 + n)); op_enc(b); }
+        for (size_t n : {(size_t)1000, (size_t)4097, (size_t)65535, (size_t)65536, (size_t)131069, (size_t)131070, (size_t)131071, (size_t)131072, (size_t)131073,
+                         (size_t)262142, (size_t)262143, (size_t)262144, (size_t)393214, (size_t)393215, (size_t)393216, (size_t)1048577, (size_t)3000002}) op_encbig(n);
         if (!alpha.empty()) all_seqs(alpha, 0, maxlen, op_enc);
         for (long long k = 0; k < count; ++k) { Bytes b; int n = (int)rng.below(65); for (int i = 0; i < n; ++i) b.push_back((char)rng.below(256)); op_enc(b); }
     } else if (gen == "pairs") {
